@@ -20,6 +20,8 @@ func checkC18(c *Ctx) {
 	c.Expect("C18-R4", 2)
 	c.Rule("C18-R5", "HideCursor moves the requested cursor position off-screen, so GetCursor keeps reporting a hidden cursor after the next Show or Sync")
 	c.Expect("C18-R5", 1)
+	c.Rule("C18-R6", "InjectKeyBytes delivers U+FFFD when it is what was injected: a decoded rune equal to U+FFFD is dropped only if the consumed bytes are not the charset's own encoding of U+FFFD (same rule as the terminfo screen's rune parser)")
+	c.Expect("C18-R6", 1)
 	c.Expect("C18-R1", 2)
 	c.Expect("C18-R2", 2)
 	c.Expect("C18-R3", 6)
@@ -66,6 +68,11 @@ func checkC18(c *Ctx) {
 	checkDirtyGate(c, p, dc, "C18-R3", isSimEmission, 2)
 	checkEncodeDst(c, p, dc, "C18-R4")
 	checkHideCursor(c, p, "C18-R5", "simscreen")
+	if inj := p.Fn("tcell:(*simscreen).InjectKeyBytes"); inj != nil {
+		checkGenuineReplacementChar(c, p, inj, "C18-R6")
+	} else {
+		c.Undecided("C18-R6", "InjectKeyBytes", "-", "not found")
+	}
 	sa := encPredAtoms(dc)
 	c.Check(sa["T#0 == 0"] && sa["out[0] == 26"], "C18-R4", "(*simscreen).drawCell:failure-predicate", p.pos(dc.Pos()),
 		fmt.Sprintf("conditions on the encoder's results: %v (the terminfo screen falls back on zero length and on a SUB first byte; so must its test double)", sortedKeys(sa)))
